@@ -36,6 +36,8 @@ def build(spec):
     if k == 'Rm':
         x = build(a[0])
         return {i: x for i in range(a[1])}
+    if k == 't':
+        return tuple(build(x) for x in a)       # an array used as a map key
     if k == 'm':
         return {build(kk): build(vv) for kk, vv in a}
     if k == 'M':
@@ -148,6 +150,10 @@ def shapes():
         out.append({'m': [[{'s': w}, 1], [{'b': h(w)}, 2]]})
         out.append([{'b': h(w)}, {'s': w}])
     out.append({'m': [[{'b': ''}, 1], [{'s': ''}, 2], [None, 3], [True, 4], [False, 5], [0, 6], [fspec(0.5), 7], [-1, 8]]})
+    for key in ({'t': []}, {'t': [1]}, {'t': [1, 2]}, {'t': [{'s': 'a'}, {'t': [2, 3]}]}, {'t': [None, True, {'b': '00'}]}):
+        for val in ({'s': 'abc'}, [1, [2, 3]], {'m': [[1, {'s': 'x'}]]}, {'B': [7, 40]}):
+            out.append({'m': [[key, val]]})
+            out.append({'m': [[{'s': 'first'}, 1], [key, val], [2, {'s': 'last'}]]})
     return out
 
 
@@ -207,6 +213,9 @@ def rand_scalar(rng, key=False):
         if key and x != x:
             x = 2.5
         return fspec(x)
+    if key and rng.random() < 0.06:
+        # an array as map key (decoded to a tuple)
+        return {'t': [rand_scalar(rng, key=True) for _ in range(rng.choice((0, 1, 2, 2, 3)))]}
     if key and t in (4, 5) and rng.random() < 0.3:
         # the same short word as a str key and as a bin key (the two are different keys)
         w = rng.choice(WORDS)
